@@ -172,6 +172,7 @@ static void observe_cb(evm::QE q, short what, std::deque<Op> *incb) {
 	snprintf(ob, sizeof ob, "callback %s%d what=0x%x", q.kind ? "deferred" : "ev", q.idx, what);
 	tr("cb %s", ob);
 	if (STOP()) return;
+	while (m.exp.k != evm::Exp::CB && m.skip_optional_watcher()) {}
 	bool ok = m.exp.k == evm::Exp::CB;
 	if (ok) {
 		ok = false;
@@ -228,6 +229,7 @@ static void watcher_common(int w, bool prepare, usec_t tv) {
 	snprintf(ob, sizeof ob, "%s-watcher w%d", prepare ? "prepare" : "check", w);
 	tr("cb %s tv=%lld", ob, (long long)tv);
 	if (STOP()) return;
+	while ((m.exp.k != (prepare ? evm::Exp::PREPARE : evm::Exp::CHECK) || m.exp.w != w) && m.skip_optional_watcher()) {}
 	if (m.exp.k != (prepare ? evm::Exp::PREPARE : evm::Exp::CHECK) || m.exp.w != w) { mismatch(ob, false, true); return; }
 	if (prepare) {
 		if (tv != m.exp.tv) { violation("C45.prepare-timeout", "prepare watcher w%d reported timeout %lld us, loop will use %lld us", w, (long long)tv, (long long)m.exp.tv); return; }
@@ -257,6 +259,7 @@ static void on_wait_enter(int kind, int64_t timeout_ns, int epfd) {
 	evm::Model &m = R->m;
 	if (abandoned() && R->in_loop) { event_base_loopbreak(R->base); return; }
 	if (stop() || !R->in_loop) return;
+	while (m.exp.k != evm::Exp::WAIT && m.skip_optional_watcher()) {}
 	if (m.exp.k != evm::Exp::WAIT) { char ob[64]; snprintf(ob, sizeof ob, "wait (timeout %lld ns)", (long long)timeout_ns); mismatch(ob, false, false); return; }
 	// convert the model's timeout the way this backend does
 	usec_t tv = m.exp.tv;
@@ -638,6 +641,7 @@ static void exec_op(const Op &op, bool incb) {
 		R->in_loop = false;
 		tr("api loop -> %d", rv);
 		if (STOP()) break;
+		while (m.exp.k != evm::Exp::RET && m.skip_optional_watcher()) {}
 		if (m.exp.k != evm::Exp::RET) { char ob[48]; snprintf(ob, sizeof ob, "loop return %d", rv); mismatch(ob, false, false); break; }
 		if (rv != m.exp.rv) { violation("C03.loop-return", "event_base_loop(flags=%d) returned %d, model %d", flags, rv, m.exp.rv); break; }
 		{
